@@ -110,7 +110,11 @@ def _frame(kind, ch: Optional[Choices], uniq, via):
                                   "color": [None, "RED", "GREEN", "BLUE"][d("fr.col", 4)],
                                   "tags": ["t%d" % n][: d("fr.tags", 2)]}}
         else:
-            data = {"v": n, "s": ["x", None, [1, 2], {"k": False}][d("fr.shape", 4)]}
+            deep: Any = n
+            for _ in range(260):
+                deep = [deep]
+            # (legal JSON that stricter parsers refuse: an escaped lone surrogate, nesting deeper than 200 levels)
+            data = {"v": n, "s": ["x", None, [1, 2], {"k": False}, "cut inside an emoji \ud83d", deep][d("fr.shape", 6)]}
             if ch is not None and d("fr.falsy_data", 12) == 11:
                 # execute_ws itself (no generated model in the way): a result whose data is falsy
                 return {"k": "next", "data": [None, {}, [], 0, "", False][d("fr.falsy_which", 6)], "optional": True,
